@@ -34,13 +34,13 @@ SX = 'sigtools/sphinxext.py'
 # (name, [properties aimed at], [(file, old, new), ...])
 MUTANTS = [
     ('merge-keep-varargs-after-absorbing-positional', ['C01', 'C09'], [(S,
-        "                _add_sources(self.src, existing.name, src)\n                _exclude_from_seq(self.varargs_src, o_varargs)\n",
+        "                _add_sources(self.src, existing.name, src)\n                self.varargs_src[o_index] = None\n",
         "                _add_sources(self.src, existing.name, src)\n")]),
     ('merge-unbalanced-pok-kwonly-in-varargs-branch', ['C01', 'C09'], [(S,
         "            self.posargs.append(existing.replace(kind=existing.POSITIONAL_ONLY))\n            _add_sources(self.src, existing.name, src)\n        elif existing.default == existing.empty:\n            raise ValueError('Unmatched regular",
         "            self.kwoargs[existing.name] = existing.replace(kind=existing.KEYWORD_ONLY)\n            _add_sources(self.src, existing.name, src)\n        elif existing.default == existing.empty:\n            raise ValueError('Unmatched regular")]),
     ('merge-unmatched-kwo-keeps-varkwargs', ['C01', 'C09'], [(S,
-        "            _add_all_sources(self.src, unmatched_kwoargs.values(), from_src)\n            _exclude_from_seq(self.varkwargs_src, o_varkwargs)\n",
+        "            _add_all_sources(self.src, unmatched_kwoargs.values(), from_src)\n            self.varkwargs_src[o_index] = None\n",
         "            _add_all_sources(self.src, unmatched_kwoargs.values(), from_src)\n")]),
     ('merge-optional-unmatched-pok-required-check-dropped', ['C09', 'C01', 'C15'], [(S,
         "        elif existing.default == existing.empty:\n            raise ValueError('Unmatched regular parameter: {0}'\n                             .format(existing))",
